@@ -3,12 +3,14 @@ CONSTANTS
  Groups = {"g","g:t","g/x"}
  ColonNames = {"t:u","g:t"}
  SlashNames = {"t/u","g/x"}
+ PercentNames = {}
+ DeadVariants = {3}
  MaxParts = 2
  Offs = {0,1,2}
  Metas = {"","m"}
- Variants = {1,2}
+ Variants = {1,2,3}
  TimeoutVariants = {1}
- CfgVariants = {1}
+ CfgVariants = {1,2}
  ToolNames = {"cluster_status","cluster_metrics","list_topics","describe_topics","list_groups","describe_group","fetch_offsets","describe_configs"}
  ToolShapes = {"none","known","unknown","special","empty","many"}
  InitTopics <- ToolTopics3
@@ -21,6 +23,9 @@ CONSTANTS
  DevFetchDefaultZero = FALSE
  DevCommitUnchecked = FALSE
  DevToolWrites = FALSE
+ DevToolReaps = FALSE
+ DevEscapeFastPath = FALSE
+ DevEtcdDeletePrefix = FALSE
 INIT Init
 NEXT NextTools
 INVARIANTS EmitSched C40_Unchanged
